@@ -181,9 +181,9 @@ type GbCase struct {
 	Hdr   *RtpSpec `json:"hdr,omitempty"`
 	Tcp   bool     `json:"tcp,omitempty"`
 	// TCP framing (L3 only): LenLies[i] replaces the 2-byte length prefix of packet i; Mut applies to the byte stream
-	LenLieAt int `json:"len_lie_at"`
-	LenLie   int `json:"len_lie"`
-	Mut      Mut `json:"mut"`
+	LenLieAt int   `json:"len_lie_at"`
+	LenLie   int   `json:"len_lie"`
+	Mut      Mut   `json:"mut"`
 	Slices   []int `json:"slices,omitempty"`
 	// Flood (after the packets of the program stream): a sequence-number gap, many packets cached behind the gap,
 	// then the missing packet, then further packets.  Exercises the reorder list up to and beyond its capacity (1024).
@@ -535,6 +535,9 @@ func runGbSession(c GbCase) *pbt.Violation {
 	}
 	pk := c.packets()
 	fd.key = len(pk)
+	if v := statSnapshot(s, gbStream); v != nil { // a pub session nobody has connected to yet
+		return v
+	}
 	tickAt := len(pk) / 2
 	if c.Udp {
 		addr := fmt.Sprintf("127.0.0.1:%d", resp.Data.Port)
@@ -545,6 +548,7 @@ func runGbSession(c GbCase) *pbt.Violation {
 			return 0
 		}
 		silent := 0
+		ndgram, nacked := 0, 0
 		for i, raw := range pk {
 			if i == tickAt {
 				if v := runTicks(s, fd, c.Ticks); v != nil {
@@ -570,6 +574,12 @@ func runGbSession(c GbCase) *pbt.Violation {
 				}
 				time.Sleep(100 * time.Microsecond)
 			}
+			if n > 0 {
+				ndgram++
+				if acked && silent < 3 {
+					nacked++
+				}
+			}
 			if acked && silent < 3 {
 				silent = 0
 			} else {
@@ -581,6 +591,15 @@ func runGbSession(c GbCase) *pbt.Violation {
 			}
 		}
 		time.Sleep(2 * time.Millisecond) // the handler of the last datagram
+		switch {
+		case ndgram == 0:
+		case nacked == 0:
+			note("gb28181-udp-session/shallow:datagrams-all-into-the-void")
+		case nacked < ndgram:
+			note("gb28181-udp-session/datagrams:some-counted-by-lal")
+		default:
+			note("gb28181-udp-session/datagrams:all-counted-by-lal")
+		}
 		return probe(s, fd)
 	}
 	dial := func() net.Conn {
